@@ -15,6 +15,47 @@ def handle (args : List String) (impl : String) : Verdict :=
       { model := showEPs m, agree := m = after, oracle := alignOracle f.dyn eps after f.minfree f.block,
         trivial := after.length = eps.length }
     | _, _, _ => bad "parse"
+  | ["hist", fl, _shards, stepsTxt] =>
+    match parseFlags fl, (stepsTxt.splitOn "|").mapM (parseList parseEP) with
+    | some f, some steps =>
+      -- a converter names fresh endpoints srv001.. (sequence naming), cookie empty
+      let srv (i : Nat) : String := let t := toString (i + 1); "srv" ++ String.ofList (List.replicate (3 - t.length) '0') ++ t
+      let fresh (st : List EP) : List EP := (st.zip (List.range st.length)).map fun (e, i) => { e with name := srv i }
+      let showStep (o : Outcome) : String := (if o.updated then "1" else "0") ++ "/" ++ showCmds o.cmds ++ "/" ++ showEPs o.cur
+      -- model run
+      let run := steps.foldl (fun (acc : List EP × Bool × List String) st =>
+        let (state, committed, outs) := acc
+        let cur := fresh st
+        let o : Outcome :=
+          if !committed then
+            ⟨false, (alignSlots { eps := cur, dynUpdate := f.dyn, resolver := f.res, cookiePreserve := f.pres, initialWeight := f.iw } f.minfree f.block).eps, [], false⟩
+          else if shrinks f.same state cur then ⟨true, state, [], false⟩
+          else updateOne f state cur []
+        (o.cur, true, outs ++ [showStep o])) ([], false, [])
+      let mtxt := ";".intercalate run.2.2
+      -- oracle on the implementation's own steps
+      let implSteps := impl.splitOn ";"
+      let parsed : List (Bool × List EP) := implSteps.filterMap fun t =>
+        match t.splitOn "/" with
+        | [u, _, eps] => (parseList parseEP eps).map fun l => (u = "1", l)
+        | _ => none
+      let real (l : List EP) := ((l.filter (·.enabled)).map fun e => (e.target, e.weight))
+      let sameSet (a b : List (String × Int)) : Bool := a.all (b.contains ·) && b.all (a.contains ·)
+      let verdict : Option String :=
+        if impl = "PANIC" then some "panic" else
+        if parsed.length ≠ steps.length then some "unparsable-implementation-output" else
+        ((List.range steps.length).drop 1).findSome? fun i =>
+          let prev := (parsed.getD (i - 1) (false, [])).2
+          let now := parsed.getD i (false, [])
+          let cur := steps.getD i []
+          -- an update applied without reload must keep every slot (len_preserved): the slot budget that the
+          -- last reload left is what later in-capacity changes rely on
+          if now.1 then (if now.2.length < prev.length then some "slots-lost-without-reload" else none)
+          else if sameSet (real prev) (cur.map fun e => (e.target, e.weight)) then some "reload-on-noop"
+          else if f.dyn ∧ !f.res ∧ !f.pres ∧ f.same ∧ fits prev (fresh cur) then some "reload-although-fits"
+          else none
+      { model := mtxt, agree := mtxt = impl, oracle := verdict, trivial := steps.length < 3 }
+    | _, _ => bad "parse"
   | [kind, fl, olds, curs] =>
     match parseFlags fl, parseList parseEP olds, parseList parseEP curs with
     | some f, some old, some cur =>
